@@ -37,7 +37,7 @@ CODE_HOSTILE = ["`end. Next`", "` x `"]
 LINK_CORE = ["[link](http://ex.com/a)", "[two words](http://ex.com/a_b?q=1&r=2)", "[a b c](http://u.v/w \"T t\")",
              "![alt text](img.png)", "![a](i.png \"ti tle\")", "<https://example.org/path>", "[*em* link](http://x.y/z)",
              "[with `code` in](http://x.y)", "https://bare.example.com/p?q=1", "[it's \"q\"](http://q.uo/te's)",
-             "<mailto:a@b.co>"]
+             "<mailto:a@b.co>", "https://en.wikipedia.org/wiki/O'Reilly_Media", "<https://x.y/it's>"]
 LINK_HOSTILE = ["[sp](<http://x.y/a b>)", "[t](http://x.y 'single')", "[p](http://x.y (paren))", "[dots. End](http://x.y)",
                 "[nested [br]](http://x.y)", "[e](http://x.y/(a))", "www.bare.example.org"]
 HTML_INL = ["<span class=\"a b\">", "</span>", "<br/>", "<b>", "</b>", "<a href=\"http://x.y/z\" title=\"t's\">", "</a>"]
@@ -239,7 +239,7 @@ class Gen:
                 self.feats.add("setext")
             ws = self.words(r.randint(1, 6), atoms=0.08, allow_first_atom=False)
             kind = r.random()
-            if kind < 0.30 and any(w[:1] in "*_" or w[-1:] in "*_" for w in ws):
+            if kind < 0.30 and (any(w[:1] in "*_" or w[-1:] in "*_" for w in ws) or "://" in ws[-1] or "://" in ws[0]):
                 kind = 1.0  # no emphasis nested directly inside the all-bold wrapper
             if kind < 0.15:
                 ws = ["**" + ws[0]] + ws[1:]
